@@ -104,6 +104,7 @@ class Violation(Exception):
 
 UNIT = ("agg", ())
 UNINIT = ("uninit",)
+REPEAT = object()
 
 
 def mk_int(v, bits, signed=False):
@@ -1417,20 +1418,35 @@ class Machine:
                 tid = pe[1]
         return tid
 
-    def addr_of(self, loc, bits):
+    def addr_of(self, loc, bits, st=None):
         if loc[0] == "B":
             return sym_norm(loc[1], loc[2], bits, False)
         if loc[0] == "Z":
             return mk_int(loc[1], bits)
-        return ("sym", ((("@",) + tuple(str(x) for x in loc[:3]), 1),), 0, bits, False)
+        align = 1
+        try:
+            if loc[0] == "L" and st is not None and not loc[3]:
+                fr = self.frame_by_serial(st, loc[1])
+                align = self.ty(self.local_ty(fr, loc[2])).get("align", 1)
+            elif loc[0] == "D" and not loc[3]:
+                for t in self.p.types:
+                    if t and t["k"] == "adt" and M.norm_path(t["path"]) == "Header":
+                        align = t.get("align", 1)
+            elif loc[0] == "H" and not loc[2]:
+                align = 8
+        except Unanalysable:
+            align = 1
+        return ("sym", ((("@",) + tuple(str(x) for x in loc[:3]) + (align,), 1),), 0, bits, False)
 
     def transmute(self, st, v, src_tid, dst_tid):
         s, d = self.ty(src_tid), self.ty(dst_tid)
         pb = self.p.ptr_bytes * 8
         if s["k"] in ("ptr", "ref") and d["k"] == "int":
             if v[0] == "ptr":
-                return self.addr_of(v[1], d["size"] * 8)
-            raise Unanalysable("address of wide pointer")
+                return self.addr_of(v[1], d["size"] * 8, st)
+            if v[0] == "fat":
+                return self.addr_of(v[1], d["size"] * 8, st)
+            raise Unanalysable("address of value kind %s" % v[0])
         if s["k"] == "int" and d["k"] in ("ptr", "ref"):
             if v[0] == "sym":
                 return ("ptr", ("B", v[1], v[2]))
@@ -1527,6 +1543,18 @@ class Machine:
                 elif not fits:
                     self.oblige(st, "no-wrap", fits, "%s may wrap: %s" % (op, self.show_sym(r)))
                 return r
+            if op == "BitAnd" and (ka == "int" or kb == "int"):
+                k_, s_ = (a[1], b) if ka == "int" else (b[1], a)
+                # alignment test of an address: addr & (align-1)
+                if k_ >= 0 and (k_ & (k_ + 1)) == 0 and s_[0] == "sym":
+                    need = k_ + 1
+                    if len(s_[1]) == 1 and isinstance(s_[1][0][0], tuple) and s_[1][0][0][0] == "@" and s_[1][0][1] == 1:
+                        have = s_[1][0][0][-1]
+                        if isinstance(have, int) and have % need == 0:
+                            return mk_int(s_[2] & k_, bits, signed)
+                    if need == 1:
+                        return mk_int(0, bits, signed)
+                    return ("top", "alignment-unknown")
             raise Unanalysable("operator %s on symbolic integers" % op)
         # byte-derived integers
         if ka in ("cell", "int") and kb in ("cell", "int"):
@@ -1812,6 +1840,10 @@ class Machine:
             res = prim(self, st, inst, args, t)
             if res is NotImplemented:
                 prim = None
+            elif res is REPEAT:
+                # a summarised loop consumed one step: stay on this call, let the explorer test coverage
+                st.flags["summary_head"] = True
+                return
             else:
                 if t["t"] is None:
                     raise Violation("diverged")
